@@ -295,6 +295,11 @@ func checkC04(r *Run) {
 	c04Misc(r, m, hinfo)
 
 	// ---- r5: who writes open state ---------------------------------------------------
+	// "a fid opens at most once" under concurrent requests: the test of opened, File.Open and
+	// the store are one exclusive region (the rule of C07.r5)
+	r.alias = map[string]string{"r5": "r5"}
+	c07OpenOnce(r, m)
+	r.alias = nil
 	for _, fa := range m.fields() {
 		if !fa.Write || (fa.Key != "p9.fidRef.opened" && fa.Key != "p9.fidRef.openFlags") {
 			continue
